@@ -38,6 +38,35 @@ def escapeByte (spacePlus : Bool) (b : Nat) : Str :=
 def queryEscape (spacePlus : Bool) (s : Str) : Str :=
   ((utf8Bytes s).map (fun b => escapeByte spacePlus b.toNat)).flatten
 
+/-! url.QueryUnescape at byte level: '+' ↦ space, %XX ↦ byte, anything malformed ↦ error. -/
+
+def unhexByte (c : Char) : Option Nat :=
+  if '0' ≤ c && c ≤ '9' then some (c.toNat - 48)
+  else if 'a' ≤ c && c ≤ 'f' then some (c.toNat - 87)
+  else if 'A' ≤ c && c ≤ 'F' then some (c.toNat - 55)
+  else none
+
+def queryUnescapeBytes : Str → Option (List Nat)
+  | [] => some []
+  | '%' :: a :: b :: rest =>
+    match unhexByte a, unhexByte b, queryUnescapeBytes rest with
+    | some x, some y, some r => some ((x * 16 + y) :: r)
+    | _, _, _ => none
+  | '%' :: _ => none
+  | '+' :: rest => (queryUnescapeBytes rest).map (32 :: ·)
+  | c :: rest => (queryUnescapeBytes rest).map (c.toNat :: ·)
+
+/-- Escaping at byte level (what `queryEscape` does before the bytes are read back as text). -/
+def queryEscapeBytes (spacePlus : Bool) (bs : List Nat) : Str :=
+  (bs.map (escapeByte spacePlus)).flatten
+
+/-- RFC 3986 percent-encoded text: unreserved characters and %XX triplets (upper-case hex) only. -/
+def pctEncoded : Str → Bool
+  | [] => true
+  | '%' :: a :: b :: rest => (unhexByte a).isSome && (unhexByte b).isSome && pctEncoded rest
+  | '%' :: _ => false
+  | c :: rest => isUnreservedByte c.toNat && c.toNat < 128 && pctEncoded rest
+
 structure Subscription where
   id         : Str
   subscriber : Str
